@@ -12,7 +12,7 @@ use crate::project::{icao_u32, scaled};
 fn slot(a: &Option<adsb_deku::Altitude>) -> Value {
     match a {
         None => json!({"some": 0, "f": 0, "lat": 0, "lon": 0, "alt": -1}),
-        Some(x) => json!({"some": 1, "f": x.odd_flag as i64, "lat": x.lat_cpr, "lon": x.lon_cpr,
+        Some(x) => json!({"some": 1, "f": crate::project::parity_code(&x.odd_flag), "lat": x.lat_cpr, "lon": x.lon_cpr,
                           "alt": x.alt.map_or(-1, i64::from)}),
     }
 }
